@@ -24,7 +24,6 @@ import (
 	"github.com/brutella/hc/db"
 	"github.com/brutella/hc/hap"
 
-
 	"verif/internal/refctl"
 	"verif/internal/sched"
 )
@@ -513,7 +512,7 @@ func exploreHPair(scratch string, hp hpair, bound int, rep *Report, deadline tim
 			hp.prep(w)
 			waitFree()
 		}
-		S := &sched.Sched{}
+		S := &sched.Sched{FreeGrace: 5 * time.Second} // (the server's own goroutines take part: they may hold a lock for a moment)
 		capped := false
 		yieldHooks(S, capFor(bound), &capped)
 		installSync(S)
@@ -603,7 +602,7 @@ func exploreHPairPrefix(scratch string, hp hpair, cas Case, rep *Report, done *b
 		hp.prep(w)
 		waitFree()
 	}
-	S := &sched.Sched{}
+	S := &sched.Sched{FreeGrace: 5 * time.Second}
 	yieldHooks(S, capFor(cas.Bound), nil)
 	installSync(S)
 	var ra, rb string
